@@ -19,7 +19,6 @@ a heap object: 3x cheaper), vec = Vec<T> (thorough), dv = util::DefView (default
   c10_empty_<view>              the rolling kernels on an empty series (window from 0 on the fast path)
   c10_vrank_empty               ts_vrank on an empty Vec (underflowed in the pinned tree; C05)
   c10_w0_kernels_vec_n2         window 0 through the kernels on Vec                                  (DEFECT expected)
-  c10_panic_cmp_empty_dv        cmp kernel on an empty DefView: assert!(window > 0) — clean panic (should_panic)
 Windows: symbolic for DefView and for the drivers; enumerated by a concrete loop for kernels on fast-path inputs (see wloop).
 Quick: N <= 3; thorough adds N = 4, Vec inputs for the kernels and further lengths of the defect harnesses.
 """
@@ -284,10 +283,9 @@ def part_h(fn, view, n, tag, calls, thorough=False):
 
 
 def empty_h(view):
-    wlo = 0 if view != "dv" else 1      # default bodies assert window > 0 (clean panic, see c10_panic_*)
+    wlo = 0      # an empty series gives an empty result for every window on every backend (default bodies too, since b02e1d7)
     B = view_opt(view, 0, True)
-    if view != "dv":
-        B.append("cmp_all::<_, 0>(&v, 0);")   # on DefView: clean panic, see c10_panic_cmp_empty_dv
+    B.append("cmp_all::<_, 0>(&v, 0);")
     B.append(f"k_minmaxnorm::<_, 0>(&v, any_window::<0>({wlo}), any_mp::<0>());")
     B += view_f64(view, 0)
     B.append(f"num_all::<_, _, 0>(&va, &vb, {wlo});")
@@ -338,8 +336,8 @@ def layer2():
     # it fails with that panic on a tree without the fix
     add("c10_vrank_empty", ["let v: Vec<Option<i32>> = Vec::new();",
                             "k_tsrank::<_, 0>(&v, any_window::<0>(0), any_mp::<0>());"], 4)
-    add("c10_panic_cmp_empty_dv", view_opt("dv", 0, True) + ["let _o: Vec<f64> = v.ts_vmin(any_window::<0>(0), any_mp::<0>());"],
-        4, should_panic=True)
+    # (the former should_panic harness c10_panic_cmp_empty_dv — extrema on an empty DefView hit assert!(window > 0) — is gone: that
+    # panic was the C05 defect repaired by b02e1d7; c10_empty_dv now runs the extrema there as an ordinary harness)
 
 
 def main():
